@@ -99,7 +99,7 @@ def mutate_and_observe(d, gen, repo, tier, avoid):
         args = ["mutate", "--in", inp, "--out", mut, "--judge", rec, "--seed", SEED] + extra
         if avoid:
             args += ["--avoid", ",".join(sorted(avoid))]
-        out, _ = vh(args, timeout=3000)
+        out, _ = vh(args, timeout=3000, env={"RAYON_NUM_THREADS": "2"})   # JOBS processes share the cores
         return kind, json.loads(out.strip().split("\n")[-1]), read_ndjson(rec)
 
     with ThreadPoolExecutor(max_workers=JOBS) as ex:
@@ -128,7 +128,11 @@ def baseline(d, gen, repo, tier):
     write_ndjson(inp, sample)
     vh(["front-run", "--in", inp, "--out", out], timeout=1500)
     recs = read_ndjson(out)
-    return [r for r in recs if r["front"] == "accepted"]
+    for r in recs:
+        if r["front"] == "accepted" and r.get("emit") != "emitted":
+            # an accepted program on which the back end fails is C03's business; it is no evidence about C06
+            log(f"[c06] baseline {r.get('origin')} is accepted but compile_sources {r.get('emit')}: {(r.get('crash') or {}).get('message')} (not judged)")
+    return [r for r in recs if r["front"] == "accepted" and r.get("emit") == "emitted"]
 
 
 def source_of(rec, programs_by_id):
@@ -142,40 +146,52 @@ def source_of(rec, programs_by_id):
             "fault": {k: f[k] for k in ("kind", "sub", "module", "modules", "edited", "site", "before", "after")}}
 
 
+CHUNK = 6000     # records per TLC run: a counterexample is the whole path, keep it printable
+
+
 def judge(recs, tag, d, stats, cfg="PipelineTrace.cfg"):
     """TLC on PipelineTrace over the records; returns [(record, invariant)] for every violating record."""
     bad = []
-    remaining = list(recs)
-    while remaining and len(bad) < 12:
-        tr = os.path.join(d, f"trace-{tag}.ndjson")
-        write_ndjson(tr, [slim(r) for r in remaining])
-        v = tlc("PipelineTrace", cfg, env={"TRACE": tr}, deque=True, tag=f"c06-{tag}", timeout=2400, xmx="8g")
-        stats["tlc_states"] = stats.get("tlc_states", 0) + v.generated
-        if v.violated:
-            l = v.last_l()
-            if not l:
+    for c in range(0, len(recs), CHUNK):
+        remaining = list(recs[c:c + CHUNK])
+        while remaining and len(bad) < 12:
+            tr = os.path.join(d, f"trace-{tag}.ndjson")
+            write_ndjson(tr, [slim(r) for r in remaining])
+            v = tlc("PipelineTrace", cfg, env={"TRACE": tr}, deque=True, tag=f"c06-{tag}", timeout=2400, xmx="8g")
+            stats["tlc_states"] = stats.get("tlc_states", 0) + v.generated
+            if v.violated:
+                l = v.last_l()
+                if not l:
+                    log(v.out[-3000:])
+                    tool_failure("PipelineTrace: violated invariant without a state")
+                bad.append((remaining[l - 1], v.violated))
+                remaining = remaining[:l - 1] + remaining[l:]
+                continue
+            if not v.ok:
                 log(v.out[-3000:])
-                tool_failure("PipelineTrace: violated invariant without a state")
-            bad.append((remaining[l - 1], v.violated))
-            remaining = remaining[:l - 1] + remaining[l:]
-            continue
-        if not v.ok:
-            log(v.out[-3000:])
-            tool_failure(f"PipelineTrace.tla run failed ({cfg}): {v.error}")
-        break
+                tool_failure(f"PipelineTrace.tla run failed ({cfg}): {v.error}")
+            break
     return bad
 
 
 def kf_matches(k, rec):
+    """The narrow signature of a known finding, decided on the recorded compilation."""
     s = k.get("signature", {})
     f = rec.get("fault") or {}
-    return s.get("kind") == f.get("kind") and s.get("sub", f.get("sub")) == f.get("sub") and \
-        s.get("front", rec.get("front")) == rec.get("front")
+    if s.get("kind") != f.get("kind") or s.get("sub", f.get("sub")) != f.get("sub"):
+        return False
+    if "front" in s and s["front"] != rec.get("front"):
+        return False
+    if "crash_contains" in s and s["crash_contains"] not in (rec.get("crash") or {}).get("message", ""):
+        return False
+    return True
 
 
 def check_known(d, stats):
-    """Runs the witness of every open finding; a finding that still reproduces is reported and its operator avoided."""
-    avoid = set()
+    """Runs the witness of every open finding through the real compiler and TLC.  A finding that still
+    reproduces is reported; if it is marked `avoid` its (sub-)operator is switched off for this run (every such
+    mutant would fail), otherwise recorded compilations matching its signature are set aside and counted."""
+    avoid, live = set(), []
     for k in known():
         w = k.get("witness")
         path = os.path.join(VERIF, w) if w and not os.path.isabs(w) else w
@@ -191,15 +207,13 @@ def check_known(d, stats):
         sig = k["signature"]
         label = sig["kind"] + (":" + sig["sub"] if "sub" in sig else "")
         if still and kf_matches(k, rec):
-            report_known(PID, f"{k['what']} [witness {w}: front={rec['front']}, artefacts={rec.get('artefacts_present')}; "
-                              f"{still[0][1]} of PipelineTrace.tla; operator {label} not applied in this run]")
-            avoid.add(label)
-            stats.setdefault("known", []).append(label)
+            k = dict(k, label=label, inv=still[0][1], witness_front=rec["front"], hits=0)
+            live.append(k)
+            if k.get("avoid"):
+                avoid.add(label)
         else:
-            log(f"[c06] known finding {label} no longer reproduces on its witness: the operator is applied again")
-    return avoid
-
-
+            log(f"[c06] known finding {label} no longer reproduces on its witness ({w}): not excused any more")
+    return avoid, live
 def run(tier):
     t0 = time.time()
     d = outdir(PID)
@@ -212,9 +226,19 @@ def run(tier):
         if f"<{action} line" not in mc.out:
             tool_failure(f"vacuity: action {action} of Pipeline.tla not covered")
     # 2. the fault model on the real compiler
-    avoid = check_known(d, stats)
+    avoid, live = check_known(d, stats)
     gen, repo = corpus(d, tier)
     recs, census = mutate_and_observe(d, gen, repo, tier, avoid)
+    excused = []
+    for r in recs:
+        hit = next((k for k in live if not k.get("avoid") and kf_matches(k, r)), None)
+        if hit:
+            hit["hits"] += 1
+            excused.append(r)
+    recs = [r for r in recs if r not in excused]
+    for k in live:
+        how = f"operator {k['label']} not applied in this run" if k.get("avoid") else f"{k['hits']} matching mutants in this run set aside"
+        report_known(PID, f"{k['what']} [witness {k['witness']}: front={k['witness_front']}, {k['inv']} of PipelineTrace.tla; {how}]")
     base = baseline(d, gen, repo, tier)
     for i, r in enumerate(base):
         r["id"] = len(recs) + i
@@ -276,6 +300,7 @@ def run(tier):
         "trace_states_checked_by_tlc": stats.get("tlc_states", 0),
         "model_drift_records": len(drift),
         "operators_switched_off_by_known_findings": sorted(avoid),
+        "mutants_set_aside_by_known_findings": {k["label"]: k["hits"] for k in live if not k.get("avoid")},
     }
     write_evidence(PID, tier, "fault_enumeration", coverage,
                    ["mutants are single-fault: one textual splice per mutant at a site found in the typed AST of the accepted original",
